@@ -160,9 +160,11 @@ def table_rule(ctx, crate):
                 a = u.call_args(bb)
                 e = u.expand_vars(strip_sites(a[1])) if len(a) > 1 else ("unknown", "")
                 # tokens[1].1, unmodified
-                calls = [last_seg(s[1]) for s in mir.subexprs(e) if s[0] == "call"]
-                ok = any(s[0] == "field" and s[1] == 1 for s in mir.subexprs(e)) and not any(
-                    x in ("trim", "to_lowercase", "replace", "split") for x in calls)
+                # the word itself: field 1 of an element of the token list, through identity wrappers only
+                pe = e
+                while pe[0] == "call" and pe[2] and any(mir.short(pe[1]).endswith(x) for x in mir.IDENTITY_CALLS):
+                    pe = pe[2][0]
+                ok = pe[0] == "field" and pe[1] == 1
         ctx.ob("R17-3", u.path, "unalias passes its argument word unchanged to remove_alias", ok,
                key="R17-3|%s|arg" % u.path, crate=crate.kind)
     gl = crate.fn("shell::Shell::get_alias_list")
